@@ -18,6 +18,7 @@ def run(tier, scratch, t0, replay=None):
                               focus=["int", "float", "complex", "text", "bytes", "frozenset", "big_tuple",
                                      "shared_consts", "py2long", "many_consts"])
     D.run_diff(res, batches, ["canon", "consumed"], ["C01"])
+    D.corpus_invariants(res, scratch, ["C01"], tier)
     if not res.counters.get("c01_consumed_checks"):
         res.inconclusive.append("payload-consumed monitor on xdis.unmarshal.load_code never evaluated")
     return K.finish(res, tier, "exploration", RULE, t0,
